@@ -135,7 +135,7 @@ def fixed_read_items():
 W_ATOMS = ["a", "foo", "'hello world'", "[]", "'{}'", "'it''s'", "(+)", "(-)", "'\u00e9'", "'a\\nb'", "'\\\\'", "(;)", "(',')",
            "('|')", "!", "'[]'", "''", "'a.b'", "e", "(*)", "'$VAR'", "'/*'", "'%'", "x_1", "(:-)", "'\\t'", "(\\+)", "'.'"]
 W_CAP_ATOMS = ["'A'", "'_x'", "'X1'", "'_'", "'_G1'"]
-W_NUMS = ["0", "42", "-7", "3.14", "1.0e10", "-0.0", "123456789012345678901234567890", "-1", "1.0", "0.1", "1.0e-10", "0'a"]
+W_NUMS = ["0", "42", "-7", "3.14", "1.0e10", "-0.0", "123456789012345678901234567890", "-1", "1.0", "0.1", "1.0e-10", "97"]
 W_STRS = ['"abc"', '""', '"a\\"b"', '"hello world"', '"a\\nb"', '"x"', '"it\'s"', '"[]"', '"\u00e9\u00e8"']
 W_FUN = ["f", "g", "'F'", "'hello world'", "+", "-", "*", "/", "','", ";", ":-", "->", "=", "\\+", "'{}'", "'$VAR'", "^",
          "is", "mod", "'[]'", "'.'", ":", "-->", "?-", "@<", "**", "dynamic", "\u00e9"]
